@@ -34,6 +34,8 @@ pub enum IOp {
     Cancelled(u8),
     U2fRegister { h: u8 },
     U2fAuthenticate { h: u8 },
+    /// a ceremony the user denies (OperationDenied from the user step): 0 make, 1 get A, 2 trait make, 3 trait get A
+    Denied(u8),
 }
 
 fn seeds() -> Vec<Passkey> {
@@ -55,7 +57,13 @@ fn mk<S>(store: S, silent: bool) -> Authenticator<S, ScriptedUv>
 where
     S: CredentialStore<PasskeyItem = Passkey> + Send + Sync,
 {
-    let mut uv = ScriptedUv::consenting(Log::new());
+    mk_log(store, silent, Log::new())
+}
+fn mk_log<S>(store: S, silent: bool, log: Log) -> Authenticator<S, ScriptedUv>
+where
+    S: CredentialStore<PasskeyItem = Passkey> + Send + Sync,
+{
+    let mut uv = ScriptedUv::consenting(log);
     uv.yields = 1;
     if silent {
         uv.outcome = UvOutcome::Ok { presence: false, verification: false };
@@ -115,6 +123,15 @@ where
         Err(e) => format!("err:{e:?}"),
     };
     match op {
+        IOp::Denied(k) => {
+            let inner = match k {
+                0 => IOp::Make { rk: true, prf: false },
+                1 => IOp::Get { who: 0, prf: false, silent: false },
+                2 => IOp::TraitMake,
+                _ => IOp::TraitGet { who: 0 },
+            };
+            one(auth, inner, step, created)
+        }
         IOp::Make { rk, prf } => {
             let req = mc_req(prf, rk);
             let r = match poll_n(auth.make_credential(req), None) {
@@ -196,12 +213,17 @@ where
     let silent_of = |op: &IOp| matches!(op, IOp::Get { silent: true, .. });
     // the user step's answer is configuration of the instance: a silent operation gets its own
     // instance in both runs (it is the *other* operations that share one)
-    let mut long_lived = mk(store.clone(), false);
+    let log = Log::new();
+    let mut long_lived = mk_log(store.clone(), false, log.clone());
     for (k, op) in hist.iter().enumerate() {
+        let answer = matches!(op, IOp::Denied(_)).then_some(UvOutcome::Err(0x27));
         let r = if one_instance && !silent_of(op) {
+            log.set_answer(answer);
             one(&mut long_lived, *op, k, &mut created)
         } else {
-            one(&mut mk(store.clone(), silent_of(op)), *op, k, &mut created)
+            let l2 = Log::new();
+            l2.set_answer(answer);
+            one(&mut mk_log(store.clone(), silent_of(op), l2), *op, k, &mut created)
         };
         out.push(r);
     }
@@ -264,6 +286,7 @@ fn op_name(op: &IOp) -> &'static str {
         IOp::Cancelled(_) => "cancelled",
         IOp::U2fRegister { .. } => "u2f_register",
         IOp::U2fAuthenticate { .. } => "u2f_authenticate",
+        IOp::Denied(_) => "denied-by-user",
     }
 }
 
@@ -290,6 +313,31 @@ pub fn sweep(alphabet: &[IOp], depth: usize, kinds: &[u8], threads: usize, key_p
     par::sweep_cases(&hists, threads, |(kind, h), st| {
         st.case(&(kind, h), true, "instance-differential");
         for (k, d) in differential(*kind, h) {
+            st.finding(Finding::new(format!("{prefix}/kind={k}"), d, json!({"instance_differential": {"store": kind, "hist": h}})));
+        }
+    })
+}
+
+/// Repetition: `op` n times in a row on one instance, then each probe - counters, budgets and
+/// thresholds that an instance (or anything behind it) keeps show only after many equal steps.
+pub fn repeat_sweep(alphabet: &[IOp], reps: &[usize], kinds: &[u8], threads: usize, key_prefix: &str) -> Stats {
+    let mut hists: Vec<(u8, Vec<IOp>)> = vec![];
+    for &kind in kinds {
+        for op in alphabet {
+            for &n in reps {
+                for probe in alphabet {
+                    let mut h = vec![*op; n];
+                    h.push(*probe);
+                    hists.push((kind, h));
+                }
+            }
+        }
+    }
+    let prefix = key_prefix.to_string();
+    par::sweep_cases(&hists, threads, |(kind, h), st| {
+        st.case(&(kind, h), true, "instance-repetition");
+        for (k, d) in differential(*kind, h) {
+            let d = if d.len() > 700 { format!("{}…{}", &d[..d.floor_char_boundary(350)], &d[d.floor_char_boundary(d.len() - 300)..]) } else { d };
             st.finding(Finding::new(format!("{prefix}/kind={k}"), d, json!({"instance_differential": {"store": kind, "hist": h}})));
         }
     })
